@@ -158,9 +158,36 @@ def lean_side(pid: str, tier: str) -> dict:
     return res
 
 # ---------------------------------------------------------------- driver
-def _run_driver_chunk(payloads: list[dict]) -> list[dict]:
+DRIVER_SKIPPED: list = []      # payloads the compiled model could not answer within its per-case limit (counted in the evidence)
+
+def _run_driver_chunk(payloads: list[dict], case_limit: float | None = None) -> list[dict]:
+    """`case_limit` (seconds; only the generation ops pass it): the evaluator of the real code keeps duplicates, and a model
+    in which two assets sit on both sides of a link doubles them per hop - a single generated case can then cost the compiled
+    model minutes and gigabytes (measured: 21 GB in the thorough tier).  The batch gets a budget; if it is exceeded or the
+    process is killed, every case of the batch is run on its own with `case_limit`, and a case that still does not finish
+    is answered `{'skipped': ...}` (running time is not a property under test: the case is left to the Python oracle)."""
     data = '\n'.join(json.dumps(p, separators=(',', ':')) for p in payloads) + '\n'
-    p = subprocess.run([DRIVER], input=data, capture_output=True, text=True)
+    budget = None if case_limit is None else max(4 * case_limit, 0.25 * len(payloads) + 60)
+    try:
+        p = subprocess.run([DRIVER], input=data, capture_output=True, text=True, timeout=budget)
+    except subprocess.TimeoutExpired:
+        p = None
+    if case_limit is not None and (p is None or p.returncode < 0):
+        if len(payloads) == 1:
+            DRIVER_SKIPPED.append(payloads[0].get('op'))
+            return [{'case': payloads[0].get('case'), 'skipped': f'the compiled model did not answer within {case_limit} s'}]
+        out = []
+        for q in payloads:
+            try:
+                r = subprocess.run([DRIVER], input=json.dumps(q, separators=(',', ':')) + '\n', capture_output=True, text=True, timeout=case_limit)
+                lines = [l for l in r.stdout.split('\n') if l.strip()]
+                if r.returncode == 0 and len(lines) == 1: out.append(json.loads(lines[0])); continue
+                if r.returncode >= 0: raise RuntimeError(f'driver failed rc={r.returncode}: {r.stderr[-500:]}')
+            except subprocess.TimeoutExpired:
+                pass
+            DRIVER_SKIPPED.append(q.get('op'))
+            out.append({'case': q.get('case'), 'skipped': f'the compiled model did not answer within {case_limit} s'})
+        return out
     if p.returncode != 0:
         raise RuntimeError(f'driver failed rc={p.returncode}: {p.stderr[-500:]}')
     lines = [l for l in p.stdout.split('\n') if l.strip()]
@@ -168,18 +195,18 @@ def _run_driver_chunk(payloads: list[dict]) -> list[dict]:
         raise RuntimeError(f'driver answered {len(lines)} lines for {len(payloads)} payloads')
     return [json.loads(l) for l in lines]
 
-def run_driver(payloads: list[dict], jobs: int | None = None) -> list[dict]:
+def run_driver(payloads: list[dict], jobs: int | None = None, case_limit: float | None = None) -> list[dict]:
     """feed one JSON object per line to the compiled Lean model (several driver processes for large batches;
     cases are dealt round-robin so that large cases are spread over the processes)"""
     if not payloads:
         return []
     jobs = jobs or (min(14, os.cpu_count() or 1) if len(payloads) >= 400 else 1)
     if jobs <= 1:
-        return _run_driver_chunk(payloads)
+        return _run_driver_chunk(payloads, case_limit)
     from concurrent.futures import ThreadPoolExecutor
     chunks = [payloads[i::jobs] for i in range(jobs)]
     with ThreadPoolExecutor(max_workers=jobs) as ex:
-        parts = list(ex.map(_run_driver_chunk, chunks))
+        parts = list(ex.map(lambda c: _run_driver_chunk(c, case_limit), chunks))
     out = [None] * len(payloads)
     for i, part in enumerate(parts):
         out[i::jobs] = part
